@@ -51,6 +51,10 @@ CHECKS = {
          "Histories of 12-70 operations over a heap of named globals in one real runtime: constructors, views (slice/cdr/rest, views of views), every listed non-mutating operation, the five mutators, zero-length appends, appends to views and to append results, containers stored in containers, quoted literals; after each step every live value is compared with a heap model (backing, offset, length) that encodes the documented discipline.",
          "Whether append! moves a vector that has outstanding views is unspecified (capacity is an implementation detail): values whose sharing would depend on it are skipped, not judged; key spelling of maps is compared by name.",
          "DESIGN.md 4/C11"),
+ "C12": ("exploration", "metamorphic runtime monitor: print/read round trip of generated values, three-reader agreement on generated and mutated source texts, and layout re-writing between complete tokens, judged by harness-side structural comparison",
+         "(a) values built through the public constructors (all int64 boundaries, finite floats from random bits and decimal boundaries, strings over 17 escape classes incl. invalid UTF-8 and 60 KB, readable symbol spellings decided by a spelling-only pre-test, keywords, nested lists, quote depth 0-4) are printed, read back with the strict reader and compared structurally; print(read(print v)) must equal print v except for -0.0; (b) random bytes, token soup, balanced soup, rendered programs with comments, mutations and windows of the repository's .lisp files must be accepted or rejected by all of the strict, fault-tolerant and format-preserving readers, with identical trees; (c) every accepted text is re-laid-out twice (whitespace and comments between complete tokens, token spans from the public lexer) and must read to the same tree.",
+         "A single quote on a self-evaluating atom is not judged ('5 prints as 5); 2.0 -> \"2\" -> int 2 is numerically equal; fault-tolerant acceptance means zero recorded errors; findings are minimised into stable keys (notes/NOTES-C12.md).",
+         "DESIGN.md 4/C12"),
  "C13": ("exploration", "reference-model runtime monitor: libjson driven through the lisp builtins, judged by an independent byte-level RFC 8259 recognizer/decoder (math/big numbers); Python json as an offline second oracle over the recorded log in the thorough tier",
          "Generated JSON-representable values are dumped (several forms, permuted insertion order: byte-identical, keys sorted, valid per the independent recognizer, decoded back to the same data, load(dump v) equal? v); generated RFC 8259 texts and ~230 named near-miss mutations are loaded under all four :string-numbers/:exact-integers combinations (keywords and use-* defaults) and must agree with the independent decoder on acceptance, structure, literal text, int/float typing, json:integer-range-error and json:syntax-error.",
          "Trusts harness/c13x (own recognizer, decoder, UTF-8 validator, big-number classification); interpretations of DESIGN.md 4/C13 and notes/NOTES-C13.md (list==vector, invalid UTF-8, duplicate names, float overflow literals, canonical-float-text 'unsure' band) are not judged.",
